@@ -45,6 +45,7 @@ def unit_overlap(ctx, dtype):
     info = {"dtype": dtype, "prefer": [["(<= size_S 4)"]]}
     rets = [q for q in paths if q.kind == "return"]
     ctx.expect(f"{nm}: a returning path exists", bool(rets))
+    ctx.side_obligations(paths, nm, func=fn, replay="c09.overlap_layout", skip=lambda s: not s.startswith("layout-independence"), info=dict(info, structural=True))
     for pi, q in enumerate(paths):
         sp, Rr, P = q.state["sp"], q.state["R"], q.state["P"]
         if q.kind != "return":
@@ -297,6 +298,8 @@ def build(ctx):
 
 
 def concretise(ctx, o, r):
+    if o.replay == "c09.overlap_layout":
+        return {"dtype": o.info.get("dtype", "uint8")}
     ev = r.get("evals") or {}
     m = r.get("model") or {}
     return {"dtype": o.info.get("dtype"), "model": {k: v for k, v in m.items() if not k.startswith("region!")}, "evals": ev, "obligation": o.name}
